@@ -270,6 +270,9 @@ def gen(S, tier):
                 scripts[str(cmd["hid"])] = [["err", "about to fail", None], ["raise", {"type": "ValueError", "msg": "handler %d failed" % cmd["hid"], "cause": None, "context": None}]]
             else:
                 scripts[str(cmd["hid"])] = [["out", "<info>ran %d</info>" % cmd["hid"], None], ["return", c.pick([None, 0, 2, 300])]]
+            if c.chance(0.25):
+                # the handler extends the list values it was handed (after they were recorded)
+                scripts[str(cmd["hid"])].insert(0, ["mutate_args"])
         lines = []
         for _ in range(w.randint(2, 8)):
             p, cmd, ch = w.pick(lv)
